@@ -70,6 +70,8 @@ type c09Relay struct {
 	pubOff, signOff int
 	// hdrFlip: from the second answer on the relay offers its other payload (header 1 <-> 2)
 	hdrFlip bool
+	// bldrFlip: from the second answer on the bid comes from the other builder (X <-> Y)
+	bldrFlip bool
 	// perSlot: the bid carries the timestamp of the slot asked for (long runs over many slots; C20)
 	perSlot   bool
 	askedSlot phase0.Slot
@@ -283,7 +285,10 @@ func (r *c09Relay) BuilderBid(ctx context.Context, opts *builderapi.BuilderBidOp
 	if r.hdrFlip && call > 0 {
 		rr.hdr = 3 - r.hdr
 	}
-	g := c09Given{at: mc.Now(), eligible: (defect == "none" || defect == "nokey-badsig") && r.pubOff == r.signOff, value: v, bldr: r.bldr, hdr: rr.hdr}
+	if r.bldrFlip && call > 0 {
+		rr.bldr = 'X' + 'Y' - r.bldr
+	}
+	g := c09Given{at: mc.Now(), eligible: (defect == "none" || defect == "nokey-badsig") && r.pubOff == r.signOff, value: v, bldr: rr.bldr, hdr: rr.hdr}
 	if defect == "belowmin" {
 		g.value = c09Min - 1
 	}
@@ -580,6 +585,34 @@ func c09Units(tier string) []hx.Unit {
 			t0 := mc.Now()
 			e.t0 = t0
 			e.res, e.err = svc.BuilderBid(context.Background(), c09Slot, phase0.Hash32{9}, phase0.BLSPubKey{1}, c09ProposerConfig(e), c09BuilderConfigs("none"))
+			e.t1 = mc.Now() - t0
+			e.done = true
+		}
+		u.Check = func(r *mc.Result) mc.Verdict { return c09Check(&st, e, r, false) }
+		units = append(units, u)
+	}
+	// the repeated strategy: a relay's later answer is lower in value but comes from another builder, so that under
+	// the builder configuration it scores higher (the earlier, higher bid came from a discounted or excluded
+	// builder; relays do withdraw bids) - or the other way round
+	for _, ck := range []string{"factor0", "factor50", "offset-5", "factor200"} {
+		ck := ck
+		st := c09Strats()[1]
+		e := &c09Env{}
+		u := hx.Unit{Name: "C09/deadline/lower-bid-from-other-builder/" + ck, Cfg: mc.Config{Deviation: true, Horizon: int64(200 * time.Second)}}
+		u.Body = func() {
+			c09Init()
+			*e = c09Env{cfgKind: ck, given: make([][]c09Given, 2)}
+			util.VerifResetBuilderClients()
+			a := &c09Relay{idx: 0, env: e, defect: "none", value: 12, bldr: "XY"[mc.Choose(2)], hdr: 1, lat: 0, step: -1, hdrFlip: true, bldrFlip: true}
+			b := &c09Relay{idx: 1, env: e, defect: []string{"none", "error"}[mc.Choose(2)], value: 6, bldr: 'Y', hdr: 2, lat: mc.Choose(2)}
+			e.relays = append(e.relays, a, b)
+			util.VerifSetBuilderClient(a.Address(), a)
+			util.VerifSetBuilderClient(b.Address(), b)
+			mc.Sleep(int64(time.Duration(c09Slot)*12*time.Second) - mc.Now())
+			svc := st.mk()
+			t0 := mc.Now()
+			e.t0 = t0
+			e.res, e.err = svc.BuilderBid(context.Background(), c09Slot, phase0.Hash32{9}, phase0.BLSPubKey{1}, c09ProposerConfig(e), c09BuilderConfigs(ck))
 			e.t1 = mc.Now() - t0
 			e.done = true
 		}
